@@ -295,6 +295,14 @@ impl Tracker {
         e.frags.push(f);
     }
 
+    /// datagrams that still owe bytes to the wire: accepted (or started) and not complete
+    pub fn outstanding(&self) -> Vec<usize> {
+        (0..self.exps.len()).filter(|&i| {
+            let e = &self.exps[i];
+            !e.corrupt && !e.complete() && (e.started() || !e.optional)
+        }).collect()
+    }
+
     /// End-of-run clauses, to be called at quiescence (device accepting, polled until nothing
     /// more happens).
     pub fn finish(&mut self, out: &mut Vec<Viol>) {
@@ -383,6 +391,10 @@ pub(crate) enum Step {
     /// configuration pseudo-step (leading): the device declares checksum capabilities variant
     /// CSUM_VARIANTS[i]
     Csum(u8),
+    /// configuration pseudo-step (leading): how the application drives the interface.
+    /// bit 0: poll ONLY when the device has received something or `poll_at` names a deadline
+    /// (sleep until then; `None` = sleep forever); bit 1: the device accepts one frame per poll
+    Drive(u8),
 }
 impl Step {
     fn to_json(self) -> Value {
@@ -394,6 +406,7 @@ impl Step {
             Step::EchoB(n) => json!(["echo-b", n]),
             Step::Hold(k) => json!(["hold", k]),
             Step::Csum(i) => json!(["csum", i]),
+            Step::Drive(d) => json!(["drive", d]),
         }
     }
     fn from_json(v: &Value) -> Option<Step> {
@@ -406,6 +419,7 @@ impl Step {
             "echo-b" => Some(Step::EchoB(n)),
             "hold" => Some(Step::Hold(n as u16)),
             "csum" => Some(Step::Csum(n as u8)),
+            "drive" => Some(Step::Drive(n as u8)),
             _ => None,
         }
     }
@@ -414,7 +428,7 @@ impl Step {
         match self {
             Step::Udp(n) => 28 + n,
             Step::Raw(n) | Step::Echo(n) | Step::EchoB(n) => 20 + n,
-            Step::IdStart(_) | Step::Hold(_) | Step::Csum(_) => 0,
+            Step::IdStart(_) | Step::Hold(_) | Step::Csum(_) | Step::Drive(_) => 0,
         }
     }
 }
@@ -447,35 +461,18 @@ pub(crate) fn run_scenario(eth: bool, ip_mtu: usize, steps: &[Step]) -> Scenario
     let mut tr = Tracker::new(eth, net.dev_mtu());
     let caps = csum_caps(csum);
     tr.judge_ip_cksum = stack_computes_on_tx(&caps.ipv4);
-    // raw::Socket::dispatch zeroes the header checksum when the device computes it on transmit
-    // and then re-parses the packet with receive-side verification: under ipv4=Rx every raw
-    // packet is dropped by the SOCKET before it reaches the interface (src/socket/raw.rs). That is
-    // a socket/capability matter, not fragmentation: lenient, the datagram may be absent as a whole.
-    let raw_may_vanish = !stack_computes_on_tx(&caps.ipv4) && matches!(caps.ipv4, smoltcp::phy::Checksum::Rx);
     let fragbuf = smoltcp::config::FRAGMENTATION_BUFFER_SIZE;
     let mut outcomes = vec![];
     let mut hold: Option<u16> = None;
-    // poll until poll_at is None and nothing more comes out
-    fn settle(net: &mut Net, tr: &mut Tracker, viols: &mut Vec<Viol>) -> bool {
-        for _ in 0..400 {
-            net.poll();
-            let fr = net.dev.take_tx();
-            let got = !fr.is_empty();
-            for (_, f) in fr {
-                tr.feed(&f, viols);
-            }
-            if !got && net.dev.rx.is_empty() && net.poll_at_is_none() {
-                return true;
-            }
-        }
-        false
-    }
+    let drive = Drive::from_bits(steps.iter().find_map(|s| if let Step::Drive(d) = s { Some(*d) } else { None }).unwrap_or(0));
+    let mut clock = now();
+    let settle = |net: &mut Net, tr: &mut Tracker, viols: &mut Vec<Viol>, clock: &mut Instant| settle_drive(net, tr, viols, drive, clock);
     for (si, st) in steps.iter().enumerate() {
         let salt = 1 + si as u32;
         let must_fit = st.ip_len() <= ip_mtu || st.ip_len() <= fragbuf;
         let mut accepted = true;
         let ei = match *st {
-            Step::IdStart(_) | Step::Csum(_) => {
+            Step::IdStart(_) | Step::Csum(_) | Step::Drive(_) => {
                 outcomes.push("config");
                 continue;
             }
@@ -512,9 +509,6 @@ pub(crate) fn run_scenario(eth: bool, ip_mtu: usize, steps: &[Step]) -> Scenario
             // send() refused the datagram: nothing may appear
             tr.exps[ei].optional = true;
         }
-        if raw_may_vanish && matches!(st, Step::Raw(_)) {
-            tr.exps[ei].optional = true;
-        }
         if !must_fit {
             // larger than the MTU and than the fragmentation buffer: the stack cannot send it;
             // lenient: either nothing on the wire or (however it manages) the complete datagram
@@ -532,7 +526,7 @@ pub(crate) fn run_scenario(eth: bool, ip_mtu: usize, steps: &[Step]) -> Scenario
                 }
             }
             None => {
-                if !settle(&mut net, &mut tr, &mut viols) {
+                if !settle(&mut net, &mut tr, &mut viols, &mut clock) {
                     // not C12's business (C13), but the completeness verdict below would be unfounded
                     tr.machinery.push(format!("no quiescence after 400 polls in step {:?}", st));
                 }
@@ -560,7 +554,7 @@ pub(crate) fn run_scenario(eth: bool, ip_mtu: usize, steps: &[Step]) -> Scenario
         }
     }
     // final quiescence (a no-op unless the last datagram step was held)
-    if !settle(&mut net, &mut tr, &mut viols) {
+    if !settle(&mut net, &mut tr, &mut viols, &mut clock) {
         tr.machinery.push("no quiescence after 400 polls at the end of the scenario".into());
     }
     tr.finish(&mut viols);
@@ -579,6 +573,100 @@ pub(crate) fn run_scenario(eth: bool, ip_mtu: usize, steps: &[Step]) -> Scenario
         outcomes,
         udp_zero_cksum: udp_zero,
     }
+}
+
+/// How the application drives the interface while a scenario settles.
+#[derive(Clone, Copy, Debug, PartialEq, Eq)]
+pub(crate) struct Drive {
+    /// poll only on ingress or when `poll_at` says so (deadline None = stop); otherwise poll
+    /// unconditionally until nothing comes out any more
+    pub follow: bool,
+    /// the device accepts one frame per poll (transmit budget re-armed to 1 before every poll)
+    pub one_frame_per_poll: bool,
+}
+impl Drive {
+    pub fn from_bits(b: u8) -> Drive {
+        Drive { follow: b & 1 != 0, one_frame_per_poll: b & 2 != 0 }
+    }
+}
+
+fn poll_and_capture(net: &mut Net, tr: &mut Tracker, viols: &mut Vec<Viol>, drive: Drive, t: Instant) -> bool {
+    if drive.one_frame_per_poll {
+        net.dev.tx_budget = Some(1);
+    }
+    net.poll_t(t);
+    let fr = net.dev.take_tx();
+    let got = !fr.is_empty();
+    for (_, f) in fr {
+        tr.feed(&f, viols);
+    }
+    got
+}
+
+/// Bring the interface to rest. Returns false if it does not come to rest (machinery).
+///
+/// Unconditional discipline: poll until a poll produced nothing, nothing is queued inbound and
+/// `poll_at` is None.
+///
+/// poll_at-following discipline (an application that sleeps until told otherwise): poll when
+/// the device has received something; otherwise ask `poll_at`: None = sleep forever = stop;
+/// Some(t) = sleep until t (the clock moves to t if that is in the future), then poll. When it
+/// stops, everything the stack accepted must be completely on the wire. If something is missing
+/// and unconditional polling afterwards DOES bring it out, the stack was sitting on fragments
+/// without asking to be polled: `C12/tx/complete/stalls-when-following-poll-at`. (If it stays
+/// missing, the usual completeness clauses report it at the end of the scenario.)
+pub(crate) fn settle_drive(net: &mut Net, tr: &mut Tracker, viols: &mut Vec<Viol>, drive: Drive, clock: &mut Instant) -> bool {
+    let unconditional = |net: &mut Net, tr: &mut Tracker, viols: &mut Vec<Viol>, clock: &mut Instant| -> bool {
+        for _ in 0..2000 {
+            let got = poll_and_capture(net, tr, viols, drive, *clock);
+            if !got && net.dev.rx.is_empty() && net.iface.poll_at(*clock, &net.sockets).is_none() {
+                return true;
+            }
+        }
+        false
+    };
+    if !drive.follow {
+        return unconditional(net, tr, viols, clock);
+    }
+    let mut stopped = false;
+    for _ in 0..2000 {
+        if net.dev.rx.is_empty() {
+            match net.iface.poll_at(*clock, &net.sockets) {
+                None => {
+                    stopped = true;
+                    break;
+                }
+                Some(t) => {
+                    if t > *clock {
+                        *clock = t;
+                    }
+                }
+            }
+        }
+        poll_and_capture(net, tr, viols, drive, *clock);
+    }
+    if !stopped {
+        return false;
+    }
+    let owing = tr.outstanding();
+    if !owing.is_empty() {
+        let before: Vec<String> = owing.iter().map(|&i| format!("{} ({} bytes): on the wire {:?}", tr.exps[i].label, tr.exps[i].image.len(), tr.exps[i].cov)).collect();
+        if !unconditional(net, tr, viols, clock) {
+            return false;
+        }
+        let recovered: Vec<&String> = owing.iter().zip(before.iter()).filter(|(&i, _)| tr.exps[i].complete()).map(|(_, b)| b).collect();
+        if !recovered.is_empty() {
+            viols.push(Viol::new(
+                "C12/tx/complete/stalls-when-following-poll-at",
+                format!(
+                    "poll_at returned None (nothing queued inbound) while the stack still held untransmitted fragments: {}; polling anyway afterwards brought the rest out{}",
+                    recovered.iter().map(|s| s.as_str()).collect::<Vec<_>>().join("; "),
+                    if drive.one_frame_per_poll { " (device accepts one frame per poll)" } else { "" }
+                ),
+            ));
+        }
+    }
+    true
 }
 
 /// `run_scenario` with every call into smoltcp isolated: a panic becomes the localised violation
@@ -845,6 +933,75 @@ pub(crate) fn run_s1d(rep: &mut Report, tier: Tier) {
         "s1d",
         json!({"what": "socket datagram D1 to the peer (>= 3 fragments) polled exactly 1 or 2 times, then an inbound echo request from the peer or from a second pre-resolved neighbour B (10.0.0.3), then polled to quiescence; on Ethernet the link-layer destination of every frame must be the hardware address of the neighbour owning its IP destination",
             "domain": {"media": ["ip", "ethernet"], "ip_mtu": mtu, "d1_kinds": ["udp", "raw"], "d1_ip_payload_lengths": d1, "polls_before_request": [1, 2], "requester": ["peer", "B"], "echo_icmp_lengths": echo},
+            "cases": cases.len(), "frames_checked": frames, "polls": polls, "outcomes_per_datagram": outcomes}),
+    );
+}
+
+/// S1e: the poll_at-following application (see `settle_drive`). Single datagrams and ordered
+/// pairs, socket-originated (udp, raw) and ingress-triggered (echo reply), on an unlimited device
+/// and on a device that accepts one frame per poll.
+pub(crate) fn run_s1e(rep: &mut Report, tier: Tier) {
+    let fragbuf = smoltcp::config::FRAGMENTATION_BUFFER_SIZE;
+    let mtus: Vec<usize> = if tier == Tier::Thorough { vec![68, 100, 576, 1500] } else { vec![68, 100, 576] };
+    let mut cases = vec![];
+    let mut singles = 0u64;
+    for eth in [false, true] {
+        for &mtu in &mtus {
+            let piece = (mtu - 20) / 8 * 8;
+            // IP payload lengths: 1, 2, 3, 4 fragments (and their boundaries), the largest that fits the buffer
+            let mut lens: Vec<usize> = vec![18];
+            for k in 1..=4usize {
+                for d in [-1i64, 0, 1, 8] {
+                    let l = (k * piece) as i64 + d;
+                    if l >= 9 && (l as usize) + 20 <= fragbuf {
+                        lens.push(l as usize);
+                    }
+                }
+            }
+            lens.push(fragbuf - 20);
+            if tier == Tier::Thorough {
+                lens.extend((9..=fragbuf - 20).step_by(37));
+            }
+            lens.sort();
+            lens.dedup();
+            for dev in [1u8, 3u8] {
+                for &l in &lens {
+                    for st in [Step::Udp(l - 8), Step::Raw(l), Step::Echo(l)] {
+                        cases.push((eth, mtu, vec![Step::Drive(dev), st]));
+                        singles += 1;
+                    }
+                }
+            }
+        }
+        // ordered pairs at MTU 100
+        let pl: Vec<usize> = if tier == Tier::Thorough { vec![18, 81, 108, 161, 208, 400, 1480] } else { vec![18, 108, 208, 400] };
+        let mk = |k: u8, l: usize| match k {
+            0 => Step::Udp(l - 8),
+            1 => Step::Raw(l),
+            _ => Step::Echo(l),
+        };
+        for dev in [1u8, 3u8] {
+            for k1 in 0..3u8 {
+                for &l1 in &pl {
+                    for k2 in 0..3u8 {
+                        for &l2 in &pl {
+                            cases.push((eth, 100, vec![Step::Drive(dev), mk(k1, l1), mk(k2, l2)]));
+                        }
+                    }
+                }
+            }
+        }
+    }
+    let (outcomes, frames, polls, _) = sweep(rep, "s1e", &cases);
+    rep.add_count("states", cases.len() as u64);
+    rep.add_count("transitions", cases.len() as u64);
+    rep.add_count("evaluations", cases.len() as u64);
+    rep.add_count("real_code_steps", polls);
+    rep.cov(
+        "s1e",
+        json!({"what": "the application polls ONLY when the device has received a frame or poll_at names a deadline (None = it sleeps forever); when it stops, every accepted datagram (and every started echo reply) must be completely on the wire; if it is not but unconditional polling brings the rest out: C12/tx/complete/stalls-when-following-poll-at",
+            "domain": {"media": ["ip", "ethernet"], "ip_mtus": mtus, "devices": ["unlimited", "one frame per poll"], "kinds": ["udp", "raw", "echo (ingress-triggered reply)"],
+                "single_datagrams": singles, "ordered_pairs_at_mtu_100": cases.len() as u64 - singles},
             "cases": cases.len(), "frames_checked": frames, "polls": polls, "outcomes_per_datagram": outcomes}),
     );
 }
